@@ -227,7 +227,13 @@ class Server:
                 f.write("\n")  # I like my JSON with a trailing newline
             while True:
                 with server:
-                    data = receive(server)
+                    try:
+                        data = receive(server)
+                    except OSError:
+                        # The client hung up before sending a complete request, or sent
+                        # something that is not a request. That is this connection's
+                        # problem only; keep serving other clients.
+                        continue
                     sys.stdout = WriteToConn(server, "stdout", sys.stdout.isatty())
                     sys.stderr = WriteToConn(server, "stderr", sys.stderr.isatty())
                     resp: dict[str, Any] = {}
